@@ -2,6 +2,7 @@
 import random
 
 import orders
+import proto
 import prun
 import vcommon
 from checks import pcommon
@@ -37,6 +38,64 @@ def order_cases(tier, seed, scale, tag):
     return cases
 
 
+def timer_reuse_worker(a):
+    """Real timers and id re-use: client A of an id ends (withdrawn / registered / refused / replaced) before its 2 s timeout, client B
+    takes the id and waits on an unanswered query.  B may be accepted only when ITS timeout has expired: an acceptance read back
+    earlier than 2 s after B's announcement was written is premature whatever the machine's load (delays only make it later)."""
+    import time
+    b, seed = a["build"], a["seed"]
+    rng = random.Random(seed)
+    cfg = proto.Config([("login.svc", "login")], timeout=2)
+    s = proto.Session(b, cfg, leaks=True)
+    viol = []
+    stats = {"timer_reuse_runs": 1, "timer_reuse_polls": 0, "timer_reuse_accepts_seen": 0}
+    how = a["how"]
+    cid = rng.choice([5, 40, 1029])
+    try:
+        t0 = time.time()
+        s.do({"t": "announce", "id": cid, "ip": "192.0.2.1", "port": 1001})
+        for ev in ({"t": "password", "id": cid, "text": "+x alice pw"}, {"t": "host", "id": cid, "name": "ha"}, {"t": "ident", "id": cid, "name": "ia"},
+                   {"t": "nick", "id": cid, "name": "na"}, {"t": "userinfo", "id": cid, "user": "ua", "real": "A"}):
+            s.do(ev)
+        if how == "disconnect":
+            s.do({"t": "disconnect", "id": cid})
+        elif how == "registered":
+            s.do({"t": "registered", "id": cid})
+        elif how == "refused":
+            s.do({"t": "reply", "svc": "login.svc", "tag": "%x_1" % cid, "text": "NO denied"})
+        time.sleep(max(0.0, t0 + a["gap"] - time.time()))
+        tb = time.time()
+        s.do({"t": "announce", "id": cid, "ip": "192.0.2.2", "port": 1002})
+        for ev in ({"t": "password", "id": cid, "text": "+x bob pw"}, {"t": "host", "id": cid, "name": "hb"}, {"t": "ident", "id": cid, "name": "ib"},
+                   {"t": "nick", "id": cid, "name": "nb"}, {"t": "userinfo", "id": cid, "user": "ub", "real": "B"}):
+            s.do(ev)
+        seen_at = None
+        while time.time() < tb + 2.9 and not s.dead:
+            time.sleep(0.1)
+            out = s.do({"t": "noise", "line": "-1 M irc.example.net 1"})
+            now = time.time()
+            stats["timer_reuse_polls"] += 1
+            for ln in out or []:
+                c = proto.classify(ln)
+                if c and c["kind"] == "client" and c["id"] == cid and c["cmd"] in "DR" and seen_at is None:
+                    seen_at = now - tb
+                    stats["timer_reuse_accepts_seen"] += 1
+        s.finish()
+    except Exception:
+        s.kill()
+        raise
+    if seen_at is not None and seen_at < 2.0:
+        viol.append(("C02", "accept-before-timeout", "accept-before-timeout:" + how,
+                     "id %d: the first holder ended (%s) and a newcomer took the id %.1f s later with a query unanswered; the newcomer was accepted %.2f s after ITS "
+                     "announcement although the request timeout is 2 s (a timer of the earlier holder fired for it)\n%s" % (cid, how, a["gap"], seen_at, prun.render_trace(s.trace, 30)),
+                     {"seed": seed, "how": how, "gap": a["gap"], "timer_reuse": True}))
+    clean = s.res.clean() if s.res else False
+    if seen_at is None:
+        stats["timer_reuse_runs_without_accept"] = 1
+    return {"viol": viol, "stats": dict(stats, daemon_unclean=0 if clean else 1), "crash": [], "nontrivial": seen_at is not None, "sample": None, "nsteps": len(s.trace.steps),
+            "hash": vcommon.h(["timer-reuse", seed, how, a["gap"]]), "config": cfg.to_json(), "events": None}
+
+
 def run(chk, tier, scale=1.0):
     b = prun.build_daemon("c02-" + tier)
     cases = order_cases(tier, chk.seed, scale, "c02")
@@ -49,6 +108,10 @@ def run(chk, tier, scale=1.0):
     opts = {"weights": {"timeout": 8, "hurry": 5, "reply": 22, "password": 14, "stray": 3}, "reply_kinds": ["OK", "OKacct", "NO", "AGAIN", "MORE", "junk", "OKspace"]}
     jobs = pcommon.hist_jobs(b, n, chk.seed, PROPS, opts=opts, tag="c02", want_class=False)
     prun.fold(chk, "C02", vcommon.pmap(prun.hist_worker, jobs, chunksize=4))
+    # real timers and id re-use (wall clock is used one-sidedly: an acceptance seen too EARLY is a violation, lateness never is)
+    tjobs = [dict(build=b, seed=chk.seed * 50 + k, how=["disconnect", "registered", "refused", "replaced"][k % 4], gap=[0.8, 1.2, 1.5][k % 3])
+             for k in range(8 if tier == "quick" else 48)]
+    prun.fold(chk, "C02", vcommon.pmap(timer_reuse_worker, tjobs))
     # service tables around the width of the per-client masks (the awaiting mask must not lose or alias a service)
     import build as buildmod
     from checks import c06
@@ -61,6 +124,7 @@ def run(chk, tier, scale=1.0):
                 "position 0..5 or never x hurry-up position x password mode strings (+x, +!, -, +x!, none, a second password); plus random multi-client histories; "
                 "every D/R line is judged against the input history (required data or H, unanswered queries unless the timeout fired, +! without account, refusal); "
                 "distinct = hash of (config, input lines); non-trivial = at least one verdict")
+    chk.require("timer_reuse_accepts_seen", 4)
     chk.require("accepts", 3000 * min(1.0, scale))
     chk.require("timeouts_effective", 1000 * min(1.0, scale))
     chk.require("accept_checks_with_await_history", 100 * min(1.0, scale))
